@@ -96,20 +96,20 @@ def header(kind: int, name: str, ind: int, n1: int, n2: int, deco: int) -> bool:
         text_at(lines, sc.declared_at, len(name)) == name
 
 
-IDS = ('a', 'f', 'im', 'aso')     # chosen to collide with the words of an import statement
+IDS = ('a', 'f', 'im', 'aso', 'a_much_longer_alias')     # chosen to collide with the words of an import statement
 
 
 def imports(form: int, mi: int, xi: int, yi: int, zi: int, s1: int, s2: int, s3: int) -> bool:
     """
     pre: 0 <= form <= 8
-    pre: 0 <= mi <= 3 and 0 <= xi <= 3 and 0 <= yi <= 3 and 0 <= zi <= 3
+    pre: 0 <= mi <= 2 and 0 <= xi <= 4 and 0 <= yi <= 4 and 0 <= zi <= 2
     pre: 1 <= s1 <= 2 and 1 <= s2 <= 2 and 0 <= s3 <= 2
     post: _
     """
     PATHS[0] += 1
     from crosshair.tracers import NoTracing
     form, s1, s2, s3 = _c(form, 0, 8), _c(s1, 1, 2), _c(s2, 1, 2), _c(s3, 0, 2)
-    mi, xi, yi, zi = _c(mi, 0, 3), _c(xi, 0, 3), _c(yi, 0, 3), _c(zi, 0, 3)
+    mi, xi, yi, zi = _c(mi, 0, 2), _c(xi, 0, 4), _c(yi, 0, 4), _c(zi, 0, 2)
     with NoTracing():
         if TWIN[0]:
             return False
@@ -261,6 +261,8 @@ def programs():
         'try:\n    pass\nexcept (A, B) as err:\n    print(err)\nexcept C as err2: print(err2)\n',
         'x = 1; y = 2; z = x if y else (w := 3)\nprint(z, w)\n',
         'def f(a, b=1, /, c=2, *, d, **e): return a, b, c, d, e\nlam = lambda q, *r: (q, r)\n',
+        'def \\\n    continued(a):\n    return a\nclass \\\n  Cont: pass\nasync \\\n def \\\n  both(): pass\nprint(continued, Cont, both)\n',
+        'import os as operating_system, sys as s\nfrom os import sep as separator_char, path as p\nprint(operating_system, s, separator_char, p)\n',
     ]
     return out
 
